@@ -297,7 +297,11 @@ def gen_expr_case(ch):
         m, T, schema, aliases = gen.standalone_terms(ch, depth=depth, chaos=chaos)
     else:
         m, schema, aliases = gen.standalone_predicates(ch, depth=depth, chaos=chaos)
-    return {'kind': kind, 'text': mast.render(('pred', m) if kind == 'predicate' else m), 'this': schema, 'aliases': aliases}
+    inp = {'kind': kind, 'text': mast.render(('pred', m) if kind == 'predicate' else m), 'this': schema, 'aliases': aliases}
+    if ch.int(0, 3) == 0:
+        # not parser output: what other API functions made of it, and calls widened to several arguments (API only)
+        inp['pre'] = [ch.pick(['negate', 'negate', 'simplify', 'join_self', 'this_var_this', 'split_last'] + [f'widen_calls:{i}' for i in range(5)] * 2) for _ in range(ch.int(1, 2))]
+    return inp
 
 
 def gen_property_case(ch):
